@@ -201,7 +201,12 @@ func c07R2(a *A, r *Roles) {
 			if m == "NoticeDump" {
 				nd++
 			}
-			a.check(f == want && okLoop, rule, key, w.posOf(in), "in its designated function, not repeated", fmt.Sprintf("driver call %s appears in %s (loop=%v): the handshake sends more than the one announcement and the one dump request", m, f.Name(), !okLoop))
+			inPlace := f == want
+			if !inPlace && want != nil && (m == "ReadPacket" || m == "HandleErrorPacket") {
+				// ... or in a function that only the packet decoder's code calls
+				inPlace = readerPrivate(w, want)[f]
+			}
+			a.check(inPlace && okLoop, rule, key, w.posOf(in), "in its designated function, not repeated", fmt.Sprintf("driver call %s appears in %s (loop=%v): the handshake sends more than the one announcement and the one dump request", m, f.Name(), !okLoop))
 		})
 	}
 	a.check(nd == 1, rule, "one-dump-request", w.pos(r.StartDump.Pos()), "exactly one NoticeDump call site", fmt.Sprintf("%d NoticeDump call sites", nd))
